@@ -6,7 +6,7 @@ open VlsModel VlsModel.NodeReq VlsModel.Drv
 
 /-- configuration used by the simulator: Hourly 100_000_000 msat velocity, max 6 invoices, ready
     channel oid 1, constant clock -/
-def cfg : Cfg := { maxInvoices := 6, readyOid := 1, now := 1600000000 }
+def cfg : Cfg := { maxInvoices := 6, maxChannels := 4, readyOid := 1, now := 1600000000 }
 def vc0 : Velocity.VC := Velocity.VC.ofSpec ⟨100000000, .hourly⟩
 
 /-- the simulator approves two keysends (10 000 000 and 12 000 000 msat) during set-up -/
